@@ -65,7 +65,7 @@ void SimulateMsp430::reset()
 void SimulateMsp430::push(uint32_t value)
 {
   reg[1] -= 2;
-  ram_write16(reg[1], value);
+  ram_write16(reg[1] & 0xfffe, value);
 }
 
 int SimulateMsp430::set_reg(const char *reg_string, uint32_t value)
@@ -613,7 +613,7 @@ int SimulateMsp430::one_operand_exe(uint16_t opcode)
       reg[1] -= 2;
       src = get_data(reg_index, As, bw, ea);
       update_reg(reg_index, As, bw);
-      ram_write16(reg[1], src);
+      ram_write16(reg[1] & 0xfffe, src);
       break;
     }
     case 5:  // CALL (no bw)
@@ -621,16 +621,16 @@ int SimulateMsp430::one_operand_exe(uint16_t opcode)
       src = get_data(reg_index, As, bw, ea);
       update_reg(reg_index, As, bw);
       reg[1] -= 2;
-      ram_write16(reg[1], reg[0]);
+      ram_write16(reg[1] & 0xfffe, reg[0]);
       reg[0] = src;
       nested_call_count++;
       break;
     }
     case 6:  // RETI
     {
-      reg[2] = ram_read16(reg[1]);
+      reg[2] = ram_read16(reg[1] & 0xfffe);
       reg[1] += 2;
-      reg[0] = ram_read16(reg[1]);
+      reg[0] = ram_read16(reg[1] & 0xfffe);
       reg[1] += 2;
       break;
     }
